@@ -57,8 +57,27 @@ func (core *JApiCore) buildUserTypes() *jerr.JApiError {
 		}
 	})
 
+	// Rules have to be added to every type before any type is loaded, because
+	// loading a type also loads the types it refers to.
+	if je := core.addRulesToUserTypes(); je != nil {
+		return je
+	}
+
 	err := core.userTypes.Each(func(n string, _ jschemaLib.Schema) error {
 		return core.compileUserTypeWithAllDependencies(n)
+	})
+	return adoptError(err)
+}
+
+func (core *JApiCore) addRulesToUserTypes() *jerr.JApiError {
+	dd := core.catalog.GetRawUserTypes()
+	err := core.userTypes.Each(func(name string, ut jschemaLib.Schema) error {
+		for n, r := range core.rules {
+			if err := ut.AddRule(n, r); err != nil {
+				return jschemaToJAPIError(err, dd.GetValue(name))
+			}
+		}
+		return nil
 	})
 	return adoptError(err)
 }
@@ -88,13 +107,6 @@ func (core *JApiCore) compileUserTypeWithAllDependencies(name string) error {
 	}
 
 	dd := core.catalog.GetRawUserTypes()
-
-	// Add rules before we try to do something with the type.
-	for n, r := range core.rules {
-		if err := currUT.AddRule(n, r); err != nil {
-			return jschemaToJAPIError(err, dd.GetValue(n))
-		}
-	}
 
 	tt, err := fetchUsedUserTypes(currUT, core.userTypes)
 	if err != nil {
